@@ -19,11 +19,16 @@
    (steps EvSweepPop / EvSweepClear / EvMakeCanary below); callbacks bodies may release the GIL,
    so callbacks of different threads overlap.
 
+   Tie: C36/Gen.v (regenerated) is imported here; step_fn consults its gen_gil_* / gen_register_* facts.
+   Pointer level (ring code, locked regions): C36/Ptr.v.
+
    Not modelled (hypotheses about CPython): what PyGILState_Ensure/Release, PyThreadState_Clear/
    Delete do internally beyond counter / dict / deletion; allocation failures (the ignore_error
    paths of thread_canary_register); sub-interpreters. *)
 From Coq Require Import Arith NArith List Bool Lia.
 Import ListNotations.
+From Cffi Require Export C36.Ptr.
+From Cffi Require Import C36.Gen.
 
 Inductive thst := Alive | Exited.
 Inductive tsst :=
@@ -62,7 +67,7 @@ Definition init : state :=
   mkSt (fun _ => Alive) (fun _ => None) (fun _ => None) (fun _ => false) (fun _ => TsFree) (fun _ => CFree)
        [] None 0 0 (fun _ => 0) false false (fun _ => false) (fun _ => 0) (fun _ => false).
 
-Definition upd {A} (f : nat -> A) (k : nat) (v : A) : nat -> A := fun k' => if Nat.eqb k' k then v else f k'.
+(* upd: C36/Ptr.v *)
 
 Inductive event :=
 | EvCb (t : nat)        (* thread t enters a callback (gil_ensure) *)
@@ -113,6 +118,18 @@ Definition do_exit (s : state) (t : nat) : state :=
               (cans s) (zombies s) (reg s) (nextts s) (nextc s) (ndel s) (finalized s) (fatal s) (dropped s) (nest s) (ownb s)
   end.
 
+(* Regenerated facts consulted by step_fn (C36/Gen.v, rewritten from src/c/misc_thread_common.h on every
+   run): whether gil_ensure increments gilstate_counter exactly once on the path that takes the GIL / on
+   the path entered with the GIL held; whether gil_release is exactly PyGILState_Release(oldstate) (if
+   not, what it does is unknown to the model: the event sets `fatal`); whether thread_canary_register
+   sweeps the zombies first, stores the canary in tls->local_thread_canary and takes its extra
+   gilstate_counter reference on the success path.  With a fact false the model changes and the proofs
+   of C36/Proofs.v are no longer about the code's behaviour: they break (not just a `= true` lemma). *)
+Definition bump (b : bool) (k : nat) : nat := if b then S k else k.
+Definition set_fatal (s : state) : state :=
+  mkSt (thr s) (gts s) (tlsc s) (incb s) (tss s) (cans s) (zombies s) (reg s)
+       (nextts s) (nextc s) (ndel s) false true (dropped s) (nest s) (ownb s).
+
 Definition step_fn (s : state) (e : event) : option state :=
   match e with
   | EvExit t =>          (* needs no GIL; threads may also terminate after Py_Finalize *)
@@ -131,7 +148,8 @@ Definition step_fn (s : state) (e : event) : option state :=
           | Some ts =>
               match tss s ts with
               | TsLive o k d =>
-                  Some (mkSt (thr s) (gts s) (tlsc s) (upd (incb s) t true) (upd (tss s) ts (TsLive o (S k) d))
+                  Some (mkSt (thr s) (gts s) (tlsc s) (upd (incb s) t true)
+                             (upd (tss s) ts (TsLive o (bump gen_gil_ensure_incr_unlocked k) d))
                              (cans s) (zombies s) (reg s) (nextts s) (nextc s) (ndel s) false (fatal s) (dropped s) (nest s) (ownb s))
               | _ =>      (* the thread would run on a destroyed thread state *)
                   Some (mkSt (thr s) (gts s) (tlsc s) (incb s) (tss s) (cans s) (zombies s) (reg s)
@@ -143,7 +161,8 @@ Definition step_fn (s : state) (e : event) : option state :=
               | None =>
                   let ts := nextts s in
                   Some (mkSt (thr s) (upd (gts s) t (Some ts)) (tlsc s) (incb s) (upd (tss s) ts (TsLive t 1 None))
-                             (cans s) (zombies s) (Some (t, Registering)) (S ts) (nextc s) (ndel s) false (fatal s) (dropped s) (nest s) (ownb s))
+                             (cans s) (zombies s)
+                             (Some (t, if gen_register_sweeps_first then Registering else MakeCanary)) (S ts) (nextc s) (ndel s) false (fatal s) (dropped s) (nest s) (ownb s))
               end
           end
       | _, _, _, _ => None
@@ -189,8 +208,10 @@ Definition step_fn (s : state) (e : event) : option state :=
               match tss s ts with
               | TsLive o k _ =>
                   let c := nextc s in
-                  Some (mkSt (thr s) (gts s) (upd (tlsc s) t (Some (Some c))) (upd (incb s) t true)
-                             (upd (tss s) ts (TsLive o (S k) (Some c)))
+                  Some (mkSt (thr s) (gts s)
+                             (upd (tlsc s) t (Some (if gen_register_sets_local then Some c else None)))
+                             (upd (incb s) t true)
+                             (upd (tss s) ts (TsLive o (bump gen_register_incr k) (Some c)))
                              (upd (cans s) c (CAlive ts (Some t) false)) (zombies s) None
                              (nextts s) (S c) (ndel s) false (fatal s) (dropped s) (nest s) (ownb s))
               | _ => None
@@ -202,6 +223,7 @@ Definition step_fn (s : state) (e : event) : option state :=
   | EvCbEnd t =>
       match thr s t, incb s t, gts s t, nest s t with
       | Alive, true, Some ts, 0 =>
+          if negb gen_gil_release_plain then Some (set_fatal s) else
           match tss s ts with
           | TsLive o (S (S k)) d =>
               Some (mkSt (thr s) (gts s) (tlsc s) (upd (incb s) t false) (upd (tss s) ts (TsLive o (S k) d))
@@ -223,7 +245,8 @@ Definition step_fn (s : state) (e : event) : option state :=
       | Alive, false, true, Some ts =>
           match tss s ts with
           | TsLive o k d =>
-              Some (mkSt (thr s) (gts s) (tlsc s) (incb s) (upd (tss s) ts (TsLive o (S k) d)) (cans s) (zombies s)
+              Some (mkSt (thr s) (gts s) (tlsc s) (incb s)
+                         (upd (tss s) ts (TsLive o (bump gen_gil_ensure_incr_locked k) d)) (cans s) (zombies s)
                          (reg s) (nextts s) (nextc s) (ndel s) false (fatal s) (dropped s)
                          (upd (nest s) t (S (nest s t))) (ownb s))
           | _ => Some (mkSt (thr s) (gts s) (tlsc s) (incb s) (tss s) (cans s) (zombies s) (reg s)
@@ -236,6 +259,7 @@ Definition step_fn (s : state) (e : event) : option state :=
          CPython ("auto-releasing thread-state" with oldstate LOCKED) *)
       match thr s t, nest s t, gts s t with
       | Alive, S n, Some ts =>
+          if negb gen_gil_release_plain then Some (set_fatal s) else
           match tss s ts with
           | TsLive o (S (S k)) d =>
               Some (mkSt (thr s) (gts s) (tlsc s) (incb s) (upd (tss s) ts (TsLive o (S k) d)) (cans s) (zombies s)
@@ -397,59 +421,3 @@ Definition mrun_code (n : nat) (es : list nat) : option (N * N) :=
   | None => None
   end.
 
-(* ---- the zombie list at pointer level.  The model above keeps the list as a sequence; the code
-   keeps a doubly linked ring through cffi_zombie_head with the fields zombie_next / zombie_prev.
-   The straight-line pointer code of thread_canary_make_zombie and _thread_canary_detach_with_lock
-   is regenerated from the source into C36/Gen.v as programs over the statements below and shown
-   (C36/Proofs2.v) to implement append / removal / head of the sequence.
-   Nodes: 0 is &cffi_zombie_head, canary c is node S c. *)
-Inductive fld := FNext | FPrev.
-Inductive pvar := VOb | VLast | VP | VN | VHead.
-Inductive pstmt :=
-| PLoad (dst src : pvar) (f : fld)         (* dst = src->f *)
-| PStore (dst : pvar) (f : fld) (src : pvar) (* dst->f = src *)
-| PStoreNull (dst : pvar) (f : fld).       (* dst->f = NULL *)
-
-Record heap := mkHeap { hnext : nat -> option nat; hprev : nat -> option nat }.
-Definition penv := pvar -> option nat.
-Definition pvar_eqb (a b : pvar) : bool :=
-  match a, b with
-  | VOb, VOb | VLast, VLast | VP, VP | VN, VN | VHead, VHead => true
-  | _, _ => false
-  end.
-Definition setv (e : penv) (v : pvar) (x : option nat) : penv := fun v' => if pvar_eqb v' v then x else e v'.
-Definition getf (h : heap) (f : fld) (a : nat) : option nat :=
-  match f with FNext => hnext h a | FPrev => hprev h a end.
-Definition setf (h : heap) (f : fld) (a : nat) (x : option nat) : heap :=
-  match f with
-  | FNext => mkHeap (upd (hnext h) a x) (hprev h)
-  | FPrev => mkHeap (hnext h) (upd (hprev h) a x)
-  end.
-
-(* None = a NULL pointer is dereferenced *)
-Fixpoint exec_p (p : list pstmt) (e : penv) (h : heap) : option (penv * heap) :=
-  match p with
-  | [] => Some (e, h)
-  | PLoad dst src f :: rest =>
-      match e src with Some a => exec_p rest (setv e dst (getf h f a)) h | None => None end
-  | PStore dst f src :: rest =>
-      match e dst with Some a => exec_p rest e (setf h f a (e src)) | None => None end
-  | PStoreNull dst f :: rest =>
-      match e dst with Some a => exec_p rest e (setf h f a None) | None => None end
-  end.
-
-Definition env0 (ob : nat) : penv := fun v => match v with VOb => Some ob | VHead => Some 0 | _ => None end.
-
-(* f a = x1, f x1 = x2, ..., f xn = z *)
-Fixpoint chain (f : nat -> option nat) (a : nat) (l : list nat) (z : nat) : Prop :=
-  match l with
-  | [] => f a = Some z
-  | x :: r => f a = Some x /\ chain f x r z
-  end.
-
-(* the heap represents the sequence l (of nodes) as a ring through node 0, unlinked nodes have NULL fields *)
-Definition ring (h : heap) (l : list nat) : Prop :=
-  NoDup (0 :: l) /\ chain (hnext h) 0 l 0 /\ chain (hprev h) 0 (rev l) 0 /\
-  forall x, ~ In x (0 :: l) -> hnext h x = None /\ hprev h x = None.
-
-Definition heap0 : heap := mkHeap (upd (fun _ => None) 0 (Some 0)) (upd (fun _ => None) 0 (Some 0)).
